@@ -48,10 +48,6 @@ theorem C18_counterexample_leftover_directory :
     Differs [.createBucket bka, .putObject bka kTU [1] none {} none, .deleteObject bka kTU,
       .putObject bka kT [2] none {} none] := by decide
 
-/-- fs:delete-objects-omits-missing-keys -/
-theorem C18_counterexample_delete_objects_omits :
-    Differs [.createBucket bka, .putObject bka kA [1] none {} none, .deleteObjects bka [kA, kB]] := by decide
-
 /-- fs:upload-not-bound-to-key -/
 theorem C18_counterexample_upload_not_bound_to_key :
     Differs [.createBucket bka, .createMultipartUpload alice bka kA none, .uploadPart alice bka kB (some 1) 1 [1]] := by
@@ -73,6 +69,7 @@ that does not exist is `NoSuchBucket`, not `NoSuchKey`; 0f31b61 delete_objects o
 205d9a8 upload_part and upload_part_copy refuse a part number outside 1..10000;
 47e9b00 complete_multipart_upload replaces the metadata and the checksum record of the object it replaces;
 aa68bb7 copy_object gives the destination the metadata and the checksum record of the source, or none;
+7d30be5 delete_objects reports every requested key as deleted and accepts a key named twice;
 b89afe2 ranged reads: covered for all ranges by `C18_get_refines_partial` and `C18_range_check`, the kernel cannot
 evaluate the decimal formatter of `Content-Range`) -/
 
@@ -286,6 +283,22 @@ theorem C18_fixed_stale_sidefiles_after_copy :
     (run H0 0 {} [.createBucket bka, .putObject bka kA [1] mdV { crc32 := some [1] } none,
       .putObject bka kB [2] none {} none, .copyObject bka kA bka kB, .getObject bka kB none]).2.getLast? =
       some (.get [1] 1 none (some (etagOf H0 [1])) [([109], [118])] { crc32 := some [1] }) := by decide
+
+/-- was fs:delete-objects-omits-missing-keys and fs:delete-objects-duplicate-key (the witness histories of `corpus/fs.txt`
+    first): delete_objects with a key that does not exist, with a key named twice, with both: every requested key is
+    reported as deleted, in request order, on both sides; the objects are gone, other objects stay -/
+theorem C18_fixed_delete_objects_every_key :
+    Same [.createBucket bka, .putObject bka kA [1] none {} none, .deleteObjects bka [kA, kB]] ∧
+    Same [.createBucket bka, .putObject bka kA [1] none {} none, .deleteObjects bka [kA, kA]] ∧
+    Same [.createBucket bka, .putObject bka kA [1] none {} none, .putObject bka kDE [2] none {} none,
+      .putObject bka kX [3] none {} none, .deleteObjects bka [kB, kA, kB, kDE, kA], .getObject bka kA none,
+      .getObject bka kDE none, .getObject bka kX none, .deleteObjects bka [kA], .listObjectsV2 bka none none none none] ∧
+    (run H0 0 {} [.createBucket bka, .putObject bka kA [1] none {} none, .putObject bka kDE [2] none {} none,
+      .putObject bka kX [3] none {} none, .deleteObjects bka [kB, kA, kB, kDE, kA], .getObject bka kA none,
+      .getObject bka kDE none, .getObject bka kX none, .deleteObjects bka [kA],
+      .listObjectsV2 bka none none none none]).2.drop 4 =
+      [.deleted [kB, kA, kB, kDE, kA], .err .NoSuchKey, .err .NoSuchKey, .get [3] 1 none (some (etagOf H0 [3])) [] {},
+       .deleted [kA], .listed [(kX, 1)] 1 false []] := by decide
 
 /-- was fs:suffix-range-longer-than-object / fs:suffix-range-huge-panics: the model no longer fails or panics (the answer
     itself is compared by `C18_get_refines_partial`) -/
